@@ -99,6 +99,26 @@ def run(pid, mod, chk):
         if not hit:
             bad += 1
             sys.stdout.write(stdout[-1500:])
+    # behaviour-preserving refactors must stay silent
+    eq_dir = os.path.join(VERIF, "selftest", "equiv")
+    if os.path.isdir(eq_dir):
+        for f in sorted(os.listdir(eq_dir)):
+            if not (f.startswith(pid + "-") and f.endswith(".patch")):
+                continue
+            patch = os.path.join(eq_dir, f)
+            try:
+                res = run_mutant(patch, [pid])
+            except Exception as e:  # noqa
+                print(f"[{pid}] selftest: equiv {f}: ERROR {e}")
+                bad += 1
+                continue
+            _, rc, viol, stdout = res[0]
+            ok = rc == 0
+            results.append({"equivalent_refactor": f, "silent": ok, "keys": [v["key"] for v in viol][:4]})
+            print(f"[{pid}] selftest: equiv {f}: {'silent' if ok else 'FALSE ALARM'}")
+            if not ok:
+                bad += 1
+                sys.stdout.write(stdout[-1500:])
     # append to evidence
     evp = os.path.join(os.environ.get("HV_EVIDENCE_DIR", os.path.join(VERIF, "evidence")), f"{pid}.json")
     try:
